@@ -12,6 +12,15 @@ core.shim(geo, futils)
 REGIONS = ["_", "A", "#"]
 
 
+def _reset_rectangle_tolerances():
+    """the class-wide tolerances are process-wide state: every path starts from the undefined state (as a fresh process)"""
+    Rectangle._distance_epsilon = -1.0
+    Rectangle._area_epsilon = -1.0
+
+
+symx.RESETTERS.append(_reset_rectangle_tolerances)
+
+
 def set_eps(S, sym=True):
     """Process-wide tolerances as symbolic parameters E > 0, EA >= 0 (every result then holds for any tolerance)."""
     E = S.real("E", pos=True)
